@@ -96,12 +96,22 @@ def call(c, means, variances, seed):
         seed = np.int64(seed)
     from skchange.datasets import generate_alternating_data, generate_anomalous_data, generate_changing_data
 
-    conv = lambda v: [np.array(x, dtype=float) if isinstance(x, list) else x for x in v] if isinstance(v, list) else v  # noqa: E731
+    form = core._bits({k: v for k, v in c.items() if k != "bad"}, 0, 3)  # argument forms: as generated / integral values as ints / NumPy integers for positions
+
+    def num(x):
+        return int(x) if form == 1 and isinstance(x, float) and x == int(x) else x
+
+    def conv(v):
+        if isinstance(v, list):
+            return [np.array(x, dtype=np.int64 if form == 1 and all(float(t) == int(t) for t in x) else float) if isinstance(x, list) else num(x) for x in v]
+        return num(v)
+
+    pos = (lambda t: np.int64(t)) if form == 2 else (lambda t: t)
     if c["kind"] == "changing":
-        return generate_changing_data(c["n"], list(c["cps"]), conv(means), conv(variances), seed)
+        return generate_changing_data(pos(c["n"]), [pos(t) for t in c["cps"]], conv(means), conv(variances), seed)
     if c["kind"] == "anomalous":
-        return generate_anomalous_data(c["n"], [tuple(a) for a in c["anoms"]], conv(means), conv(variances), seed)
-    return generate_alternating_data(c["nseg"], c["seglen"], c["p"], means, variances, c["prop"], seed)
+        return generate_anomalous_data(pos(c["n"]), [(pos(a[0]), pos(a[1])) for a in c["anoms"]], conv(means), conv(variances), seed)
+    return generate_alternating_data(pos(c["nseg"]), pos(c["seglen"]), c["p"], conv(means), conv(variances), c["prop"], seed)
 
 
 def width(c):
